@@ -33,7 +33,7 @@ LEVEL_NOTE = 'solve_ivp opaque (congruence only); the step from "right-hand side
 EXPLANATION = LEVEL_TEXT
 TECHNIQUE = 'VCs from the real AST of FBG (incl. the nested ode_system handed to the integrator) discharged by z3; solve_ivp uninterpreted; RK45 numerics by bounded run-time contract checks'
 BOUNDED_RULE = ('real FBG on random fields: kL in {0.1,1,3,8}, vdneff in {1e-5,1e-4,1e-3}, F in {0,+-5,+-20}, four built-in apodisations + smooth positive callables, N in {2^8..2^10} (thorough 2^12), 1/2 polarisations, '
-                'fs in {20,100,400} GS/s: |H| <= 1+1e-3, peak vs tanh^2 (rel 5e-3), uniform spectrum (abs 5e-3), route equality (1e-9), output vs filter (1e-12), energy; distinct = distinct (design, apodisation, grid)')
+                'fs in {20,100,400} GS/s: |H| <= 1+1e-3, peak vs tanh^2(kL * integral of the profile in use) (rel 1e-2), uniform spectrum (abs 1.5e-2), route equality (1e-7), output vs filter (1e-12), energy <= input*(1+2e-3); distinct = distinct (design, apodisation, grid)')
 
 CLIGHT = z3.RealVal(299792458)
 
